@@ -80,24 +80,27 @@ theorem RcOk.set {cfg : Cfg} {rc : RC} (hok : RcOk cfg rc) (h n m : Nat) (hm : l
     rw [hm] at hm'; injection hm' with hm'; omega
   · rw [RC.get_set_other _ _ _ _ he]; exact hok h' m' hm'
 
+/-- the recovery counts a list of waiters keeps for the invocations suspended in them -/
+def WaitersRc (cfg : Cfg) (ws : List Waiter) : Prop := ∀ w ∈ ws, RcOk cfg w.rc
+
 def RcSS (cfg : Cfg) (ss : StepState) : Prop :=
-  (∀ a ∈ ss.queue, RcOk cfg a.rc) ∧ (∀ ip ∈ ss.inProg, RcOk cfg ip.rc)
+  (∀ a ∈ ss.queue, RcOk cfg a.rc) ∧ (∀ ip ∈ ss.inProg, RcOk cfg ip.rc) ∧ WaitersRc cfg ss.waiters
 
 def RcInv (cfg : Cfg) (st : State) : Prop := ∀ s, RcSS cfg (st.workers s)
 
 theorem rcInv_init (cfg : Cfg) : RcInv cfg initState := by
-  intro s; simp [RcSS, initState]
+  intro s; simp [RcSS, WaitersRc, initState]
 
 theorem addOrEnqueue_rcSS (cfg : Cfg) (att : Attempt) (step : Nat) (ss : StepState) (nw : Nat) (now : Int)
     (h : RcSS cfg ss) (ha : RcOk cfg att.rc) : RcSS cfg (addOrEnqueue att step ss nw now).1 := by
   unfold addOrEnqueue
   split
   · split
-    · refine ⟨h.1, ?_⟩
+    · refine ⟨h.1, ?_, h.2.2⟩
       intro ip hip
       simp only [List.mem_append, List.mem_singleton] at hip
       rcases hip with hip | hip
-      · exact h.2 ip hip
+      · exact h.2.1 ip hip
       · subst hip; exact ha
     · exact h
   · refine ⟨?_, h.2⟩
@@ -122,18 +125,52 @@ theorem drain_rcSS (cfg : Cfg) (step nw : Nat) (now : Int) :
         · exact h.1 a (by rw [hq]; simp)
       · exact h
 
+theorem waitersRc_append {cfg : Cfg} {a b : List Waiter} (ha : WaitersRc cfg a) (hb : WaitersRc cfg b) :
+    WaitersRc cfg (a ++ b) := by
+  intro w hw
+  rcases List.mem_append.mp hw with hw | hw
+  · exact ha w hw
+  · exact hb w hw
+
+theorem waitersRc_cons {cfg : Cfg} {w : Waiter} {l : List Waiter} (hw : RcOk cfg w.rc) (hl : WaitersRc cfg l) :
+    WaitersRc cfg (w :: l) := by
+  intro x hx
+  rcases List.mem_cons.mp hx with hx | hx
+  · subst hx; exact hw
+  · exact hl x hx
+
+theorem waitersRc_modifyFirst {cfg : Cfg} (p : Waiter → Bool) (f : Waiter → Waiter)
+    (hf : ∀ w, RcOk cfg w.rc → RcOk cfg (f w).rc) :
+    ∀ (l : List Waiter), WaitersRc cfg l → WaitersRc cfg (modifyFirst p f l)
+  | [], h => by simpa [modifyFirst] using h
+  | a :: as, h => by
+    simp only [modifyFirst]
+    split
+    · exact waitersRc_cons (hf a (h a (by simp))) (fun x hx => h x (by simp [hx]))
+    · exact waitersRc_cons (h a (by simp))
+        (waitersRc_modifyFirst p f hf as (fun x hx => h x (by simp [hx])))
+
+/-- the replay of a waiter whose stored counts are admissible is admissible, and once the
+replay is queued or started the step's waiters are the scanned ones -/
 theorem resolveLoop_rcSS (cfg : Cfg) (ev : Ev) (step nw : Nat) (now : Int) :
     ∀ (rest done : List Waiter) (ss : StepState) (cmds : List Cmd) (hd : Bool),
-      RcSS cfg ss → RcSS cfg (resolveLoop ev step nw now done rest ss cmds hd).1
-  | [], done, ss, cmds, hd, h => by simp only [resolveLoop]; exact h
-  | w :: rest, done, ss, cmds, hd, h => by
+      (∀ a ∈ ss.queue, RcOk cfg a.rc) → (∀ ip ∈ ss.inProg, RcOk cfg ip.rc) →
+      WaitersRc cfg done → WaitersRc cfg rest →
+      RcSS cfg (resolveLoop ev step nw now done rest ss cmds hd).1
+  | [], done, ss, cmds, hd, hq, hi, hdn, _ => by simp only [resolveLoop]; exact ⟨hq, hi, hdn⟩
+  | w :: rest, done, ss, cmds, hd, hq, hi, hdn, hr => by
+    have hw : RcOk cfg w.rc := hr w (by simp)
+    have hrest : WaitersRc cfg rest := fun x hx => hr x (by simp [hx])
     unfold resolveLoop
     split
-    · apply resolveLoop_rcSS
-      apply addOrEnqueue_rcSS
-      · exact h
-      · exact rcOk_nil cfg
-    · exact resolveLoop_rcSS cfg ev step nw now rest _ ss cmds hd h
+    · have hall : WaitersRc cfg (done ++ { w with resolved := some ev } :: rest) :=
+        waitersRc_append hdn (waitersRc_cons hw hrest)
+      have h1 := addOrEnqueue_rcSS cfg w.replay step
+        { ss with waiters := done ++ { w with resolved := some ev } :: rest } nw now ⟨hq, hi, hall⟩ hw
+      exact resolveLoop_rcSS cfg ev step nw now rest _ _ _ _ h1.1 h1.2.1
+        (waitersRc_append hdn (waitersRc_cons hw (fun _ h => by simp at h))) hrest
+    · exact resolveLoop_rcSS cfg ev step nw now rest _ ss cmds hd hq hi
+        (waitersRc_append hdn (waitersRc_cons hw (fun _ h => by simp at h))) hrest
 
 theorem RcInv.set {cfg : Cfg} {st : State} (h : RcInv cfg st) (s : Nat) {ss : StepState} (hs : RcSS cfg ss) :
     RcInv cfg (st.set s ss) := by
@@ -153,7 +190,8 @@ theorem addEventWaiters_rcInv (cfg : Cfg) (ev : Ev) (target : Option Nat) (now :
     · exact addEventWaiters_rcInv cfg ev target now cs acc h
     · apply addEventWaiters_rcInv cfg ev target now cs
       split
-      · exact RcInv.set h _ (resolveLoop_rcSS cfg _ _ _ _ _ _ _ _ _ (h c.name))
+      · exact RcInv.set h _ (resolveLoop_rcSS cfg _ _ _ _ _ _ _ _ _ (h c.name).1 (h c.name).2.1
+          (fun _ hx => by simp at hx) (h c.name).2.2)
       · exact h
 
 theorem addEventRoute_rcInv (cfg : Cfg) (att : Attempt) (target : Option Nat) (now : Int)
@@ -205,6 +243,60 @@ theorem applyRes_rc (cfg : Cfg) (pol : Policy) (step : Nat) (tickEv : Ev) (dc : 
     split
     · refine ⟨?_, rfl⟩; intro s; simp only [State.set]; split <;> (try rename_i h; subst h) <;> exact ⟨rfl, rfl⟩
     · simp
+
+/-- the waiters of every step keep admissible counts across one result: a new waiter stores the
+counts of the execution that adds it -/
+theorem applyRes_waitersRc (cfg : Cfg) (pol : Policy) (step : Nat) (tickEv : Ev) (dc : Bool) (acc : ResAcc) (r : Res)
+    (hex : RcOk cfg acc.exec.rc) (h : ∀ s, WaitersRc cfg (acc.st.workers s).waiters) :
+    ∀ s, WaitersRc cfg ((applyRes cfg pol step tickEv dc acc r).st.workers s).waiters := by
+  have hset : ∀ (ss : StepState), WaitersRc cfg ss.waiters → ∀ s, WaitersRc cfg ((acc.st.set step ss).workers s).waiters := by
+    intro ss hss s
+    simp only [State.set]
+    split
+    · exact hss
+    · exact h s
+  cases r with
+  | result r =>
+    cases r with
+    | none => simpa [applyRes] using h
+    | some ev =>
+      simp only [applyRes]
+      split
+      · intro s w hw; simp [clearAll] at hw
+      · exact h
+  | failed exc failedAt =>
+    simp only [applyRes]
+    split
+    · exact h
+    · exact h
+    · split
+      · split
+        · exact h
+        · exact h
+      · exact h
+  | addCollected buf ev =>
+    simp only [applyRes]
+    split
+    · exact h
+    split
+    · exact hset _ (h step)
+    · exact hset _ (h step)
+  | deleteCollected buf =>
+    simp only [applyRes]
+    split
+    · exact hset _ (h step)
+    · exact h
+  | addWaiter wid waiterEv req timeout ty =>
+    simp only [applyRes]
+    have hnew : RcOk cfg (newWaiter acc.exec wid ty req).rc := hex
+    split
+    · exact hset _ (waitersRc_modifyFirst _ _ (fun _ _ => hnew) _ (h step))
+    · exact hset _ (waitersRc_append (h step) (waitersRc_cons hnew (fun _ hx => by simp at hx)))
+  | deleteWaiter wid =>
+    simp only [applyRes]
+    split
+    · exact hset _ (fun w hw => h step w (List.mem_of_mem_eraseP hw))
+    · exact h
 
 /-- commands that carry recovery counts carry admissible ones -/
 def cmdRcOk (cfg : Cfg) : Cmd → Prop
@@ -302,6 +394,16 @@ theorem foldl_applyRes_rc (cfg : Cfg) (pol : Policy) (step : Nat) (tickEv : Ev) 
     have h2 := foldl_applyRes_rc cfg pol step tickEv dc rs (applyRes cfg pol step tickEv dc acc r)
       (by rw [h1.2]; exact hex) (applyRes_cmds_rc cfg pol step tickEv dc acc r hex h)
     exact ⟨fun s => ⟨(h2.1 s).1.trans (h1.1 s).1, (h2.1 s).2.trans (h1.1 s).2⟩, h2.2⟩
+
+theorem foldl_applyRes_waitersRc (cfg : Cfg) (pol : Policy) (step : Nat) (tickEv : Ev) (dc : Bool) :
+    ∀ (res : List Res) (acc : ResAcc), RcOk cfg acc.exec.rc → (∀ s, WaitersRc cfg (acc.st.workers s).waiters) →
+      ∀ s, WaitersRc cfg ((res.foldl (applyRes cfg pol step tickEv dc) acc).st.workers s).waiters
+  | [], acc, _, h => by simpa using h
+  | r :: rs, acc, hex, h => by
+    simp only [List.foldl_cons]
+    exact foldl_applyRes_waitersRc cfg pol step tickEv dc rs (applyRes cfg pol step tickEv dc acc r)
+      (by rw [(applyRes_rc cfg pol step tickEv dc acc r).2]; exact hex)
+      (applyRes_waitersRc cfg pol step tickEv dc acc r hex h)
 
 end Engine
 
@@ -410,7 +512,9 @@ theorem reduce_rc (cfg : Cfg) (pol : Policy) (tick : Tick) (st : State) (now : I
     · split
       · exact ⟨h, by intro c hc; simp only [List.mem_singleton] at hc; subst hc; trivial⟩
       · rename_i exec hfind
-        have hexec : RcOk cfg exec.rc := (h step).2 exec (List.mem_of_find?_eq_some hfind)
+        have hexec : RcOk cfg exec.rc := (h step).2.1 exec (List.mem_of_find?_eq_some hfind)
+        have hws := foldl_applyRes_waitersRc cfg pol step ev (res.any isResult) res
+          { st := st, exec := exec } hexec (fun s => (h s).2.2)
         obtain ⟨hst, hcmds⟩ := foldl_applyRes_rc cfg pol step ev (res.any isResult) res
           { st := st, exec := exec } hexec (by simp)
         have hexec' := (foldl_applyRes_inProg cfg pol step ev (res.any isResult) res { st := st, exec := exec })
@@ -422,17 +526,17 @@ theorem reduce_rc (cfg : Cfg) (pol : Policy) (tick : Tick) (st : State) (now : I
             | cons r rs ih => intro a; simp only [List.foldl_cons]; rw [ih, (applyRes_rc cfg pol step ev _ a r).2]
           exact this res _
         simp only
-        generalize (res.foldl (applyRes cfg pol step ev (res.any isResult)) { st := st, exec := exec }) = acc at hst hcmds hrc'
+        generalize (res.foldl (applyRes cfg pol step ev (res.any isResult)) { st := st, exec := exec }) = acc at hst hcmds hrc' hws
         have hinv1 : RcInv cfg acc.st := by
           intro s
-          refine ⟨?_, ?_⟩
+          refine ⟨?_, ?_, hws s⟩
           · rw [(hst s).1]; exact (h s).1
-          · rw [(hst s).2]; exact (h s).2
+          · rw [(hst s).2]; exact (h s).2.1
         have hsettle : RcSS cfg (settle acc step worker ev).1 ∧ ∀ c ∈ (settle acc step worker ev).2, cmdRcOk cfg c := by
           unfold settle
           simp only
           split
-          · refine ⟨⟨(hinv1 step).1, ?_⟩, hcmds⟩
+          · refine ⟨⟨(hinv1 step).1, ?_, (hinv1 step).2.2⟩, hcmds⟩
             intro ip hip
             -- entries are the old ones, or the rewritten execution (same rc)
             have : ∀ (l : List InProg), (∀ x ∈ l, RcOk cfg x.rc) →
@@ -450,8 +554,8 @@ theorem reduce_rc (cfg : Cfg) (pol : Policy) (tick : Tick) (st : State) (now : I
                 · rcases List.mem_cons.mp hx with hx | hx
                   · subst hx; exact hl x (by simp)
                   · exact ih (fun y hy => hl y (by simp [hy])) x hx
-            exact this _ (hinv1 step).2 ip hip
-          · refine ⟨⟨(hinv1 step).1, fun ip hip => (hinv1 step).2 ip (List.mem_of_mem_eraseP hip)⟩, ?_⟩
+            exact this _ (hinv1 step).2.1 ip hip
+          · refine ⟨⟨(hinv1 step).1, fun ip hip => (hinv1 step).2.1 ip (List.mem_of_mem_eraseP hip), (hinv1 step).2.2⟩, ?_⟩
             intro c hc
             rcases List.mem_cons.mp hc with hc | hc
             · subst hc; trivial
@@ -505,10 +609,13 @@ theorem reduce_rc (cfg : Cfg) (pol : Policy) (tick : Tick) (st : State) (now : I
     · dsimp only
       split
       · exact ⟨h, by simp⟩
-      · split
+      · rename_i w hfindw
+        have hw : RcOk cfg w.rc := (h step).2.2 w (List.mem_of_find?_eq_some hfindw)
+        split
         · exact ⟨h, by simp⟩
-        · refine ⟨RcInv.set h _ (addOrEnqueue_rcSS cfg _ _ _ _ _ ?_ (rcOk_nil cfg)), addOrEnqueue_cmds_rc cfg _ _ _ _ _⟩
-          exact h step
+        · refine ⟨RcInv.set h _ (addOrEnqueue_rcSS cfg _ _ _ _ _ ?_ hw), addOrEnqueue_cmds_rc cfg _ _ _ _ _⟩
+          exact ⟨(h step).1, (h step).2.1,
+            waitersRc_modifyFirst _ (fun x => { x with timedOut := true }) (fun _ hx => hx) _ (h step).2.2⟩
   | idleCheck =>
     simp only
     split
